@@ -473,6 +473,17 @@ func init() {
 				for j := 0; j < n; j++ {
 					ops = append(ops, histOp(g, lines, ops))
 				}
+				if i%2 == 0 {
+					// hosts-file rules sharing a name: the bucket of "shared" holds a rule nobody has asked for yet, then a rule
+					// already materialised through its OTHER name (and the other way round in the second group); after the
+					// fault the materialised one must still be served although its neighbour is unreadable
+					a, b := "other"+fmt.Sprint(i)+".example", "shared"+fmt.Sprint(i)+".example"
+					ls[0].content = "0.0.0.1 " + b + "\n0.0.0.2 " + a + " " + b + "\n" + ls[0].content + "::2 " + a + "x " + b + "x\n::1 " + b + "x\n"
+					at := g.Intn(len(ops) + 1)
+					ops = append(ops[:at], append([]Req{{Kind: "dns", Hostname: a}, {Kind: "dns", Hostname: a + "x", DNSType: 28}}, ops[at:]...)...)
+					ops = append(ops, Req{Kind: "dns", Hostname: b}, Req{Kind: "dns", Hostname: b + "x"})
+					n = len(ops)
+				}
 				kind := Pick(g, []string{"", "fd"})
 				combos := comboOps(g, lines, ops, 4)
 				// the fault at EVERY point of the history (exhaustive over k), then the remaining queries and a
